@@ -6,7 +6,6 @@ import (
 	"fmt"
 
 	lcs "github.com/yudai/golcs"
-	"golang.org/x/exp/slices"
 )
 
 const (
@@ -249,8 +248,10 @@ func (d Diff) RenderPatch() (string, error) {
 				Value: e,
 			})
 		}
-		slices.Reverse(element.Add)
-		for _, e := range element.Add {
+		// Adds are emitted in reverse order. Do not reverse the
+		// slice in place because it is shared with the caller's diff.
+		for i := len(element.Add) - 1; i >= 0; i-- {
+			e := element.Add[i]
 			if isVoid(element.Add[0]) {
 				continue
 			}
